@@ -415,7 +415,30 @@ class C13(System):
                     if what:
                         raise Violation('phase-view-stale', f'after {a!r} (streams {st.names}): the {which} view {p!r} of stream {k} reads {sorted(got.items())} at {wT} K, {wP} Pa; '
                                         f'the parent row is {sorted(exp[2][p].items())} at {exp[3]} K, {exp[4]} Pa',
-                                        match=dict(op=op, view=which, what=what, role=roles.get(k, 'bystander'), **match0))
+                                        match=dict(op=op, view=which, what=what, role=roles.get(k, 'bystander'), via_sharer=False, **match0))
+
+    # ---- views held by a stream whose indexer OBJECT is shared with the stream that is being (un)linked ----------------------
+    def _sharers_with_views(self, st, i):
+        m = st.m
+        return [k for k in m.live() if k != i and k in st.held and m.slots[k]['I'] == m.slots[i]['I']]
+
+    def _check_sharer_views(self, st, op, a, sharers, match0):
+        """A link / unlink performed on stream i re-points the indexer object it shares with a proxy / its original; views HELD by
+        that other stream must follow.  Checked by identity right after the operation (the values may coincide), reported with
+        via_sharer=True, so that this door into the defect is distinguishable from a link / unlink on the view's own stream."""
+        X = st.X
+        for k in sharers:
+            x = X[k]
+            if not hasattr(x._imol.data, 'rows'): continue
+            for p, v in sorted(st.held[k].items()):
+                if p not in x._imol._phases: continue
+                row = x._imol.data.rows[x._imol._phase_indexer(p)]
+                what = 'flows' if v._imol.data is not row else 'TP' if v._thermal_condition is not x._thermal_condition else None
+                if what:
+                    raise Violation('phase-view-stale', f'after {a!r} (streams {st.names}): stream {k} shares its indexer object with the (un)linked stream {a[1]}; '
+                                    f'its held view {p!r} is no longer attached to its current {"row" if what == "flows" else "thermal condition"} '
+                                    f'(view reads {dict(v._imol.data.dct)}, row holds {dict(row.dct)})',
+                                    match=dict(op=op, view='held', what=what, role='bystander', via_sharer=True, **match0))
 
     # ---- one transition -----------------------------------------------------------------------------------------------
     def step(self, st, a):
@@ -515,7 +538,9 @@ class C13(System):
                     raise Violation('unexpected-exception', f'{a!r} raised {type(e).__name__}: {e}', match=dict(op=op, exc=type(e).__name__, stage='call', **match0))
                 raise Violation('link-accepted-class-mismatch', f'{a!r}: link_with between {si["kind"]} and {sj["kind"]} returned normally', match=dict(op=op))
             differed = okey(before[i]) != okey(before[j])
+            sharers = self._sharers_with_views(st, i)
             guarded(lambda: X[i].link_with(X[j], f, p, t), match0)
+            self._check_sharer_views(st, op, a, sharers, match0)
             ii, ij = m.idx[si['I']], m.idx[sj['I']]
             if t: si['TP'] = sj['TP']
             if f: ii['F'] = ij['F']
@@ -531,7 +556,9 @@ class C13(System):
             shared = m.shared_any(i)
             proxied = any(k != i and m.slots[k]['I'] == si['I'] for k in m.live())
             match0 = dict(kind=klass(m, i), shares_indexer=proxied)
+            sharers = self._sharers_with_views(st, i)
             guarded(lambda: X[i].unlink(), match0)
+            self._check_sharer_views(st, op, a, sharers, match0)
             I, F, TP = m.fresh(), m.fresh(), m.fresh()
             m.flows[F] = _copy.deepcopy(m.flows[ii['F']])
             Ph = None
@@ -559,7 +586,7 @@ class C13(System):
             # write THROUGH a held phase view: must land in the parent and in everything that shares the container
             _, i, p, *rest = a
             si = m.slots[i]; ii = m.idx[si['I']]
-            match0 = dict(kind=klass(m, i), via='view')
+            match0 = dict(kind=klass(m, i), via='view', via_sharer=False)
             shared = m.shared_any(i)
             v = st.held[i][p]
             if op == 'vflow':
